@@ -18,7 +18,7 @@ from ..algebra_lin import linear_form
 
 COL = "typhon/collocations/collocator.py"
 EXPECT = {"C04.thresholds": 6, "C04.empty": 4, "C04.temporal": 6, "C04.window": 4, "C04.nan": 9, "C04.swap": 4, "C04.offsets": 7,
-          "C04.cache": 4, "C04.interval": 1, "C04.grid": 1}
+          "C04.cache": 4, "C04.interval": 1, "C04.grid": 1, "C04.answer": 3}
 
 
 def rule_empty(ctx):
@@ -1074,3 +1074,10 @@ def rule_spatial_only(ctx):
 def run(ctx):
     for r in (rule_empty, rule_temporal, rule_window, rule_nan, rule_swap, rule_offsets, rule_cache, rule_interval, rule_reuse, rule_grid, rule_thresholds):
         ctx.attempt(r, ctx)
+    from ..early import rule_early_table
+    rule_early_table(ctx, "C04.answer", [
+        (COL, "Collocator.spatial_search", ("query",), "the index query", ()),
+        (COL, "Collocator.collocate", ("_spatial_search_with_temporal_binning", "spatial_search", "_temporal_check", "_prepare_data"), "the search", ()),
+        (COL, "Collocator._spatial_search_bin", ("spatial_search",), "the search of the bin",
+         [("(self.no_pairs, self.no_distances)", ["data1.empty or data2.empty"])]),      # a bin without points on one side has no pairs
+    ])
